@@ -225,7 +225,13 @@ impl RawArgs {
     /// println!("{paths:?}");
     /// ```
     pub fn remaining(&self, cursor: &mut ArgCursor) -> impl Iterator<Item = &OsStr> {
-        let remaining = self.items[cursor.cursor..].iter().map(|s| s.as_os_str());
+        // `next_os` advances the cursor even when it is already past the last item
+        let remaining = self
+            .items
+            .get(cursor.cursor..)
+            .unwrap_or_default()
+            .iter()
+            .map(|s| s.as_os_str());
         cursor.cursor = self.items.len();
         remaining
     }
@@ -247,10 +253,10 @@ impl RawArgs {
         cursor: &ArgCursor,
         insert_items: impl IntoIterator<Item = impl Into<OsString>>,
     ) {
-        self.items.splice(
-            cursor.cursor..cursor.cursor,
-            insert_items.into_iter().map(Into::into),
-        );
+        // `next_os` advances the cursor even when it is already past the last item
+        let index = cursor.cursor.min(self.items.len());
+        self.items
+            .splice(index..index, insert_items.into_iter().map(Into::into));
     }
 
     /// Any remaining args?
